@@ -123,7 +123,7 @@ void h_pop_front(void) {
 }
 void h_erase(void) {
     struct aws_array_list *l; size_t i;
-    GHOSTS();
+    GHOSTS(); g_lemma = AL_FN_ERASE;
     int r = aws_array_list_erase(l, i);
     if (r == 0) { if (i == 0) CANARY("erased front"); else CANARY("erased middle or back"); } else CANARY("invalid index");
 }
@@ -211,4 +211,11 @@ void h_sort(void) {
     GHOSTS();
     aws_array_list_sort(l, cmp);
     CANARY("returned");
+}
+
+/* ---------------------------------------------------------------- arithmetic lemmas (see contracts/array_list.h) */
+void h_lemma_erase(void) {
+    size_t i = nondet_size_t(), len = nondet_size_t();
+    __CPROVER_assert(AL_LEM_ERASE(i, len), "AL_LEM_ERASE holds for all values");
+    if (i < len && len <= AL_LEN_MAX) CANARY("hypothesis satisfiable");
 }
